@@ -43,6 +43,7 @@ impl Sim {
             let v = match *part {
                 "peersync" => project::peersync_state(c, &self.chain, &self.names, self.clock.now),
                 "filter" => project::filter_state(c, &self.chain, &self.names),
+                "hostile" => project::hostile_state(c, &self.chain, &self.names, self.clock.now),
                 _ => json!({}),
             };
             if let Value::Object(m) = v {
